@@ -68,10 +68,13 @@ def execute(inst):
         for k in keys:
             resid = 0.0
             scale = 0.0
+            full = 0.0
             for o, m, cf in zip(ops, mats, coefs):
                 v = m @ o[i][k][0]
                 resid = resid + cf * v
                 scale = max(scale, float(np.abs(v).max()) * abs(cf))
+                fa = np.abs(o[i][k][0][np.isfinite(o[i][k][0])])
+                full = max(full, (float(fa.max()) if fa.size else 0.0) * abs(cf))
             if scale > 0:
                 line["nontrivial"] = True
             if not np.all(np.isfinite(resid)):
@@ -80,10 +83,13 @@ def execute(inst):
                 line["worst"] = line["worst"] or f"pt{i} key{k} has non-finite entries"
                 continue
             rmax = float(np.abs(resid).max())
-            mm = common.milli(rmax, REL_TOL * scale) if (scale > 0 or rmax != 0) else 0
+            # tolerance: 1e-12 of the rows the relation speaks about + the rounding floor of the operator they belong to (rows that
+            # vanish up to 1e-18 next to entries of order one carry no information)
+            tol = REL_TOL * scale + 1e-14 * full
+            mm = common.milli(rmax, tol) if tol > 0 else (0 if rmax == 0 else 2**30)
             if mm > worst:
                 worst = mm
-                line["worst"] = f"pt{i} key{k} resid={rmax:.3e} scale={scale:.3e}"
+                line["worst"] = f"pt{i} key{k} resid={rmax:.3e} scale={scale:.3e} operator={full:.3e}"
     line["resid_milli"] = worst
     return line
 
